@@ -467,6 +467,10 @@ func (g *G) Natural(ty *m.Type, d int) m.Expr {
 			lo := g.intn("lo", n+1)
 			hi := lo + g.intn("hi", n-lo+1)
 			sl := &m.Slice{X: m.StrLit(s)}
+			if g.Cfg.RiskyIndex && g.chance("riskyslice", 1, 3) {
+				g.riskyBounds(sl, n)
+				return sl
+			}
 			if g.chance("haslo", 2, 3) {
 				sl.Lo = m.NumLit(float64(lo))
 			} else {
@@ -537,6 +541,14 @@ func (g *G) Natural(ty *m.Type, d int) m.Expr {
 		case 3:
 			x := g.Natural(ty, d-1)
 			sl := &m.Slice{X: x}
+			if g.Cfg.RiskyIndex && g.chance("riskyslice", 1, 3) {
+				n := 2
+				if al, ok := x.(*m.ArrLit); ok {
+					n = len(al.Elems)
+				}
+				g.riskyBounds(sl, n)
+				return sl
+			}
 			if g.chance("haslo", 1, 2) {
 				sl.Lo = m.NumLit(0)
 			}
@@ -547,6 +559,17 @@ func (g *G) Natural(ty *m.Type, d int) m.Expr {
 		}
 	}
 	return g.leaf(ty, d)
+}
+
+// riskyBounds gives sl bounds at and just beyond the edges of a container of length n.
+func (g *G) riskyBounds(sl *m.Slice, n int) {
+	edges := []int{-(n + 2), -(n + 1), -n, -1, 0, 1, n - 1, n, n + 1, n + 2}
+	if g.chance("haslo", 3, 4) {
+		sl.Lo = m.NumLit(float64(edges[g.intn("loedge", len(edges))]))
+	}
+	if g.chance("hashi", 3, 4) {
+		sl.Hi = m.NumLit(float64(edges[g.intn("hiedge", len(edges))]))
+	}
 }
 
 func (g *G) indexInto(ty *m.Type, d int) m.Expr {
@@ -565,6 +588,9 @@ func (g *G) indexInto(ty *m.Type, d int) m.Expr {
 			n = 2
 		}
 		i := g.intn("idx", 2*n) - n
+		if g.Cfg.RiskyIndex && g.chance("riskyidx", 1, 4) {
+			i = []int{-(n + 1), -n, n - 1, n, n + 1}[g.intn("idxedge", 5)]
+		}
 		return &m.Index{X: g.useVar(v), I: m.NumLit(float64(i)), Ty: ty}
 	}
 	if ty.K == m.Any {
@@ -576,6 +602,9 @@ func (g *G) indexInto(ty *m.Type, d int) m.Expr {
 	}
 	n := len(lit.Elems)
 	i := g.intn("idx", 2*n) - n
+	if g.Cfg.RiskyIndex && g.chance("riskyidx", 1, 4) {
+		i = []int{-(n + 1), -n, n - 1, n, n + 1}[g.intn("idxedge", 5)]
+	}
 	var ix m.Expr = m.NumLit(float64(i))
 	if i >= 0 && g.chance("idxexpr", 1, 3) {
 		ix = g.bin("+", m.NumLit(float64(i)), m.NumLit(0), m.TNum)
